@@ -146,22 +146,43 @@ func NewSortValue(val value.Primary, flags *option.Flags) *SortValue {
 	if flags.StrictEqual {
 		sortValue.SerializedKey = &bytes.Buffer{}
 		SerializeIdenticalKey(sortValue.SerializedKey, val)
+
+		// Strings are compared as strings when StrictEqual is true, also those that represent datetimes or booleans.
+		if s, ok := val.(*value.String); ok {
+			sortValue.String = strings.ToUpper(option.TrimSpace(s.Raw()))
+		}
 	}
 
 	return sortValue
 }
 
 func (v *SortValue) Less(compareValue *SortValue) ternary.Value {
-	if v.SerializedKey != nil {
-		if bytes.Equal(v.SerializedKey.Bytes(), compareValue.SerializedKey.Bytes()) {
-			return ternary.UNKNOWN
-		}
-
-		if v.SerializedKey.Bytes()[1] == 83 && compareValue.SerializedKey.Bytes()[1] == 83 {
-			return ternary.ConvertFromBool(v.String < compareValue.String)
-		}
+	if v.SerializedKey == nil {
+		return v.less(compareValue)
 	}
 
+	if bytes.Equal(v.SerializedKey.Bytes(), compareValue.SerializedKey.Bytes()) {
+		return ternary.UNKNOWN
+	}
+
+	t := ternary.UNKNOWN
+	if v.SerializedKey.Bytes()[1] == 83 && compareValue.SerializedKey.Bytes()[1] == 83 {
+		if v.String != compareValue.String {
+			return ternary.ConvertFromBool(v.String < compareValue.String)
+		}
+	} else {
+		t = v.less(compareValue)
+	}
+
+	if t == ternary.UNKNOWN && v.Type != NullType && compareValue.Type != NullType {
+		// Values that are not strictly equal but have the same priority are put in the order of their keys,
+		// so that strictly equal values are always adjacent to each other.
+		t = ternary.ConvertFromBool(bytes.Compare(v.SerializedKey.Bytes(), compareValue.SerializedKey.Bytes()) < 0)
+	}
+	return t
+}
+
+func (v *SortValue) less(compareValue *SortValue) ternary.Value {
 	switch v.Type {
 	case IntegerType:
 		switch compareValue.Type {
